@@ -187,6 +187,8 @@ def fmt_atom(a):
     if k == 'fn':
         return '%s(%s)' % (a[1], ', '.join(fmt_key(x) for x in a[2]))
     if k == 'ite':
+        if a[1][0] not in ('<', '<=', '=='):
+            return 'ite(<cond %s>, %s, %s)' % (a[1][1][-1] if isinstance(a[1][1], tuple) else a[1][1], fmt_key(a[2]), fmt_key(a[3]))
         return 'ite(%s %s 0, %s, %s)' % (fmt_key(a[1][1]), a[1][0], fmt_key(a[2]), fmt_key(a[3]))
     if k == 'sum':
         return 'sum[%s](%s)' % (a[1], fmt_key(a[2]))
@@ -437,12 +439,14 @@ def subst_atom(a, f):
     if k == 'poly':
         return subst(from_key(a[1]), f)
     if k == 'ite':
-        cp = subst(from_key(a[1][1]), f)
         x = subst(from_key(a[2]), f)
         y = subst(from_key(a[3]), f)
+        rel = a[1][0]
+        if rel not in ('<', '<=', '=='):
+            return ite(a[1], x, y)          # an opaque condition (a discriminant / a call result)
+        cp = subst(from_key(a[1][1]), f)
         if cp is None:
             return TOP
-        rel = a[1][0]
         if rel == '==':
             _s, q = sign_canon(cp)
             return ite(('==', q.key()), x, y)
